@@ -12,6 +12,11 @@ HELPER = '''
 interface Reenter:
     def reenter(x: uint256) -> uint256: nonpayable
 
+interface Observed:
+    def seen() -> uint256: view
+    def seen_t() -> uint256: view
+    def note(tag: uint256) -> uint256: nonpayable
+
 event Called:
     sender: address
     x: uint256
@@ -78,6 +83,23 @@ def forward(target: address, data: Bytes[100]) -> Bytes[64]:
     return raw_call(target, data, max_outsize=64)
 
 @external
+@view
+def peek(target: address) -> uint256:
+    # calls back into the CALLER's public view function while the caller is in the middle of its own function
+    return staticcall Observed(target).seen()
+
+@external
+@view
+def peek_t(target: address) -> uint256:
+    return staticcall Observed(target).seen_t()
+
+@external
+def poke(target: address, tag: uint256) -> uint256:
+    r: uint256 = extcall Observed(target).note(tag)
+    log Called(sender=target, x=r)
+    return r
+
+@external
 @payable
 def __default__():
     log Fallback(sender=msg.sender, value=msg.value, datalen=len(msg.data))
@@ -94,6 +116,9 @@ interface Helper:
     def pay() -> uint256: payable
     def callback(target: address, x: uint256) -> uint256: nonpayable
     def forward(target: address, data: Bytes[100]) -> Bytes[64]: nonpayable
+    def peek(target: address) -> uint256: view
+    def peek_t(target: address) -> uint256: view
+    def poke(target: address, tag: uint256) -> uint256: nonpayable
 '''
 
 CORPUS = []
@@ -2075,3 +2100,159 @@ def __default__():
         sel = slice(msg.data, 0, 4)
     log Fell(sender=msg.sender, value=msg.value, datalen=len(msg.data), sel=sel)
 ''')
+
+
+# --- the callee observes the caller's INTERMEDIATE state: a store before an external call must not be elided / delayed ---
+_add("callback_storage", _IFACE + '''
+event Obs:
+    tag: uint256
+    v: uint256
+
+x: public(uint256)
+arr: public(uint256[3])
+helper: address
+
+@deploy
+def __init__(helper: address):
+    self.helper = helper
+
+@external
+@view
+def seen() -> uint256:
+    return self.x + self.arr[1] * 1000
+
+@external
+@view
+def seen_t() -> uint256:
+    return 0
+
+@external
+def note(tag: uint256) -> uint256:
+    log Obs(tag=tag, v=self.x)
+    return self.x
+
+@external
+def static_between(a: uint256, b: uint256) -> uint256:
+    self.x = a
+    r: uint256 = staticcall Helper(self.helper).peek(self)
+    self.x = b
+    return r
+
+@external
+def ext_between(a: uint256, b: uint256) -> uint256:
+    self.x = a
+    r: uint256 = extcall Helper(self.helper).poke(self, 7)
+    self.x = b
+    return r
+
+@external
+def raw_static_between(a: uint256, b: uint256) -> uint256:
+    self.x = a
+    res: Bytes[32] = raw_call(self.helper, abi_encode(self, method_id=method_id("peek(address)")), max_outsize=32, is_static_call=True)
+    self.x = b
+    return convert(res, uint256)
+
+@external
+def raw_between(a: uint256, b: uint256) -> uint256:
+    self.x = a
+    res: Bytes[32] = raw_call(self.helper, abi_encode(self, convert(9, uint256), method_id=method_id("poke(address,uint256)")), max_outsize=32)
+    self.x = b
+    return convert(res, uint256)
+
+@external
+def loop_between(a: uint256) -> uint256:
+    acc: uint256 = 0
+    for i: uint256 in range(3):
+        self.x = a % 1000 + i
+        acc += staticcall Helper(self.helper).peek(self)
+    self.x = 0
+    return acc
+
+@external
+def aug_between(a: uint256) -> uint256:
+    self.x = 1
+    self.x += a % 1000
+    r: uint256 = staticcall Helper(self.helper).peek(self)
+    self.x += a % 1000
+    return r * 1000000 + self.x
+
+@external
+def array_between(a: uint256, b: uint256) -> uint256:
+    self.arr[1] = a % 1000
+    r: uint256 = staticcall Helper(self.helper).peek(self)
+    self.arr[1] = b % 1000
+    self.arr[1] = 0
+    return r
+
+@external
+def branch_between(a: uint256, c: bool) -> uint256:
+    self.x = a
+    r: uint256 = 0
+    if c:
+        r = staticcall Helper(self.helper).peek(self)
+    else:
+        r = extcall Helper(self.helper).poke(self, 3)
+    self.x = a + 1
+    return r
+''')
+
+_add("callback_transient", _IFACE + '''
+event Obs:
+    tag: uint256
+    v: uint256
+
+t: public(transient(uint256))
+x: public(uint256)
+helper: address
+
+@deploy
+def __init__(helper: address):
+    self.helper = helper
+
+@external
+@view
+def seen() -> uint256:
+    return self.x
+
+@external
+@view
+def seen_t() -> uint256:
+    return self.t
+
+@external
+def note(tag: uint256) -> uint256:
+    log Obs(tag=tag, v=self.t)
+    return self.t
+
+@external
+def static_between(a: uint256, b: uint256) -> uint256:
+    self.t = a
+    r: uint256 = staticcall Helper(self.helper).peek_t(self)
+    self.t = b
+    return r
+
+@external
+def ext_between(a: uint256, b: uint256) -> uint256:
+    self.t = a
+    r: uint256 = extcall Helper(self.helper).poke(self, 5)
+    self.t = b
+    return r
+
+@external
+def loop_between(a: uint256) -> uint256:
+    acc: uint256 = 0
+    for i: uint256 in range(3):
+        self.t = a % 1000 + i
+        acc += staticcall Helper(self.helper).peek_t(self)
+    self.t = 0
+    return acc
+
+@external
+def mixed_between(a: uint256, b: uint256) -> uint256:
+    self.x = a
+    self.t = b
+    r: uint256 = staticcall Helper(self.helper).peek(self) + 1000003 * staticcall Helper(self.helper).peek_t(self)
+    self.x = 0
+    self.t = 0
+    return r
+''', min_evm="cancun")
